@@ -1,9 +1,26 @@
-"""C25 — line/column (probe c25; rendered diagnostic headers are checked by the pipeline part)."""
-from ._probe_check import run_probe_check, replay_text
+"""C25 — line/column.
+
+Part 1 (probe c25): LineIndex::line_col against an independent model, exhaustively over small strings, plus corpus and random texts.
+Part 2 (headers, this file): the statement's second sentence.  Erroneous programs (corpus programs with an injected undefined name / stray
+token / semantic mutation, re-laid-out with \r\n line ends, tabs, multi-byte comments and leading comment lines) are compiled by
+`probe pipeline`, which records for every diagnostic the byte offset where its range starts and the `--> at file:line:col` header that
+Diagnostic::display rendered.  The monitor recomputes line/column from the bytes of the file that was compiled and demands
+header == (line + 1, col + 1).
+"""
+import os
+import re
+import time
+
+from .. import common as C
+from .. import pipe as P
+from ._probe_check import replay_text
 
 RULE = ("every string of length <= N over {a,\\n,\\r,\\t,é} x every byte offset (exhaustive; N=7 quick, 8 thorough), corpus files and random "
-        "multi-line texts x every offset; non-trivial = text with >= 1 newline, distinct = distinct line-length patterns")
-ASSUME = ["oracle: line = number of \\n bytes before the offset, column = offset - index after the last such \\n"]
+        "multi-line texts x every offset; non-trivial = text with >= 1 newline, distinct = distinct line-length patterns; headers: every diagnostic "
+        "rendered for 64 (quick) / 400 (thorough) erroneous programs with \\r\\n, tab and multi-byte layout, header line:col == model(range start) + 1")
+ASSUME = ["oracle: line = number of \\n bytes before the offset, column = offset - index after the last such \\n",
+          "headers: the probe pipeline renders with Diagnostic::display exactly as crates/capy/src/main.rs does (LineIndex::new over the file's text); "
+          "the range start is read from Diagnostic::range(), the function display itself uses"]
 
 
 # the same differential check interpreted by Miri
@@ -11,9 +28,135 @@ MIRI = {"quick": ["--maxlen", "2", "--random", "6", "--files", "1"],
         "thorough": ["--maxlen", "4", "--random", "200", "--files", "10"], "shards": 3, "shard_by_seed": True}
 
 
+HEADER = re.compile(r"--> at (.*):(\d+):(\d+)\s*$")
+STRAY = [")", "}", "@", "$", ";;", "= =", "12ab", "]", "é", "..", "::"]
+
+
+def model(data, off):
+    """line = number of \\n bytes before the offset; col = offset - index after the last such \\n (bytes)"""
+    line = data.count(b"\n", 0, off)
+    start = data.rfind(b"\n", 0, off) + 1
+    return line, off - start
+
+
+def hostile_text(rng, text, k):
+    """an erroneous program whose diagnostics land on lines/columns shifted by \\r\\n, tabs and multi-byte characters"""
+    kind = "undefined_line"
+    what = rng.below(4)
+    if what == 0:
+        text, kind = P.semantic_mutant(rng, text)
+    elif what == 1 and text:
+        p = rng.below(len(text) + 1)
+        text = text[:p] + " " + rng.pick(STRAY) + " " + text[p:]
+        kind = "stray_token"
+    lines = text.split("\n")
+    # a line that is an error wherever it lands (undefined name in a body, syntax error at top level)
+    for j in range(1 + rng.below(2)):
+        at = rng.below(len(lines) + 1)
+        indent = rng.pick(["", "\t", "    ", "\t\t ", " \t"])
+        lines.insert(at, f"{indent}qq_undef_{k}_{j};")
+    out = []
+    for _ in range(rng.below(4)):
+        out.append(rng.pick(["// é", "//\té\U0001F600 é", "", "\t", "// plain"]))
+    for l in lines:
+        if rng.chance(1, 6) and '"' not in l:
+            l = l + rng.pick([" // é", "\t// \U0001F600", " //é é é"])
+        if rng.chance(1, 8) and l.startswith("    "):
+            l = "\t" + l[4:]
+        out.append(l)
+    mode = rng.below(3)  # 0: \n only, 1: all \r\n, 2: mixed
+    buf = []
+    for i, l in enumerate(out):
+        buf.append(l)
+        if i + 1 < len(out):
+            buf.append("\r\n" if mode == 1 or (mode == 2 and rng.chance(1, 3)) else "\n")
+    if rng.chance(1, 2):
+        buf.append("\n")
+    return "".join(buf), kind, mode
+
+
+def header_part(tier, seed):
+    texts = [t for t in P.programs_with_main(C.corpus_texts()) if len(t) < 12000]
+    n = 400 if tier == "thorough" else 64
+    pick = C.Rng(seed, 0x2511)
+    jobs = []
+    for k in range(n):
+        r = C.Rng(seed, 0x2600 + k)
+        t, kind, mode = hostile_text(r, pick.pick(texts), k)
+        jobs.append((k, t, kind, mode))
+
+    def one(job):
+        k, t, kind, mode = job
+        d = C.fresh_dir("C25", f"h{k}")
+        data = t.encode("utf-8")
+        with open(os.path.join(d, "main.capy"), "wb") as fh:
+            fh.write(data)
+        pr, rep = P.run_pipeline(d)
+        res = {"k": k, "kind": kind, "mode": mode, "diags": 0, "skipped": 0, "bad": [], "sigs": set(), "no_report": rep is None or rep.get("status") != "ok"}
+        if res["no_report"]:
+            return res
+        for dg in rep.get("diagnostics", []):
+            if dg.get("file") != "main.capy" or not dg.get("header"):
+                res["skipped"] += 1  # another file (core) or a rendering failure (C06's matter)
+                continue
+            m = HEADER.search(dg["header"])
+            if not m or dg["start"] > len(data):
+                res["bad"].append((dg, None, "header not of the form `--> at file:line:col` or start offset beyond the text"))
+                continue
+            line, col = model(data, dg["start"])
+            res["diags"] += 1
+            got = (int(m.group(2)), int(m.group(3)))
+            if got != (line + 1, col + 1):
+                res["bad"].append((dg, (line + 1, col + 1), f"header says {got[0]}:{got[1]}, the range starts at byte {dg['start']} = {line + 1}:{col + 1}"))
+            pre = data[:dg["start"]]
+            if line >= 1:
+                res["sigs"].add((min(line, 40), min(col, 40), b"\r" in pre, any(b >= 0x80 for b in pre), b"\t" in pre[len(pre) - col:]))
+        return res
+
+    rs = C.pmap(one, jobs)
+    viol, sigs, cnt = [], set(), {"header_programs": n, "header_diagnostics": 0, "header_skipped_other_file_or_unrendered": 0, "header_programs_without_report": 0,
+                                   "header_diags_after_crlf": 0, "header_diags_after_multibyte": 0, "header_diags_on_tab_line": 0}
+    for r, job in zip(rs, jobs):
+        cnt["header_diagnostics"] += r["diags"]
+        cnt["header_skipped_other_file_or_unrendered"] += r["skipped"]
+        cnt["header_programs_without_report"] += 1 if r["no_report"] else 0
+        sigs |= r["sigs"]
+        for dg, exp, what in r["bad"][:1]:
+            viol.append({"key": "header_position", "what": f"rendered diagnostic names the wrong position: {what} ({dg.get('message')})",
+                         "witness": {"files": {"main.capy": job[1]}, "diagnostic": dg, "expected_1_based": exp, "mutation": job[2]}})
+    for s in sigs:
+        cnt["header_diags_after_crlf"] += 1 if s[2] else 0
+        cnt["header_diags_after_multibyte"] += 1 if s[3] else 0
+        cnt["header_diags_on_tab_line"] += 1 if s[4] else 0
+    return viol, sigs, cnt
+
+
 def run(tier, seed):
-    return run_probe_check("C25", tier, seed, RULE, ASSUME, corpus=True, extra=["--maxlen", "8" if tier == "thorough" else "7"],
-                           min_evals=100000, miri=MIRI)
+    t0 = time.time()
+    C.build_probe(full=True)
+    rep = C.run_probe("c25", tier, seed, extra=["--maxlen", "8" if tier == "thorough" else "7"], corpus=True)
+    mrep, ub = C.run_probe_miri("c25", seed, extra=MIRI[tier], shards=MIRI["shards"], corpus=True, shard_by_seed=True)
+    rep["violations"] = list(rep.get("violations", [])) + list(mrep.get("violations", [])) + ub
+    c = rep.setdefault("counters", {})
+    c["miri_evaluations"] = int(mrep.get("evaluations", 0))
+    c["miri_ub_reports"] = len(ub)
+    for k, v in mrep.get("counters", {}).items():
+        c["miri_" + k] = v
+    rep.setdefault("notes", []).append(
+        f"the same oracle was also run under Miri (nightly, front-end crates only, hooks on) on {mrep.get('evaluations', 0)} inputs: "
+        f"{len(ub)} undefined-behaviour report(s)")
+    if not ub and int(mrep.get("evaluations", 0)) == 0:
+        raise C.Inconclusive("the Miri run evaluated nothing")
+    viol, sigs, cnt = header_part(tier, seed)
+    rep["violations"] += viol
+    c.update(cnt)
+    rep["evaluations"] = int(rep.get("evaluations", 0)) + cnt["header_diagnostics"]
+    rep["distinct_nontrivial"] = int(rep.get("distinct_nontrivial", 0)) + len(sigs)
+    rep["notes"].append(f"headers: {cnt['header_diagnostics']} rendered diagnostics of {cnt['header_programs']} erroneous programs compared with the model "
+                        f"({len(sigs)} distinct (line, col, after-\\r, after-multibyte, tab) situations on lines > 1)")
+    if cnt["header_diagnostics"] < cnt["header_programs"] // 2 or cnt["header_diags_after_crlf"] == 0 or cnt["header_diags_after_multibyte"] == 0:
+        raise C.Inconclusive(f"the header monitor observed too little: {cnt}")
+    return C.finish("C25", tier, seed, t0, "exploration", rep, ASSUME, RULE, min_evals=100000)
 
 
 def replay(path):
